@@ -254,6 +254,35 @@ func VxC19_Dominators() {
 	n, md := vxGraphShape()
 	g := vxMakeGraph(n, md)
 	root := vx.Choose("root", 0, n-1)
+	vxC19Body(g, n, root)
+}
+
+// VxC19_DominatorsSparse5: the same on sparse 5-node graphs (thorough tier only). Irreducible
+// loops that need a third pass of the fix-point iteration first appear at 5 nodes.
+//
+//vx:tier 1
+//vx:solver z3-new
+//vx:maxdec 100000
+//vx:bound 5 nodes, out-degree <= 2 per node, at most 7 edges in total, root 0 (the family is closed under renaming nodes, so this covers every root)
+func VxC19_DominatorsSparse5() {
+	n := 5
+	g := &vxGraph{adj: make([][]int, n), done: make([]bool, n)}
+	edges := 0
+	for i := 0; i < n; i++ {
+		d := vx.Choose(vxNm("deg", i), 0, 2)
+		edges += d
+		vx.Assume(edges <= 7)
+		g.adj[i] = make([]int, d)
+		for k := 0; k < d; k++ {
+			t := vx.Int(vxNm("e", i*8+k))
+			vx.Assume(vx.And(t >= 0, t < n))
+			g.adj[i][k] = t
+		}
+	}
+	vxC19Body(g, n, 0)
+}
+
+func vxC19Body(g *vxGraph, n, root int) {
 	bg := graph.MakeBiGraph(g)
 	r := vxReach(g, root, -1)
 	dom := make([][]bool, n)
